@@ -198,8 +198,8 @@ def run(res, ctx):
     rng = random.Random(seed * 7919 + 1616)
     st = collections.Counter()
     samples = []
-    ngen = 3000 if tier == "quick" else 60000
-    nrt = 600 if tier == "quick" else 10000
+    ngen = 8000 if tier == "quick" else 80000
+    nrt = 1500 if tier == "quick" else 15000
     cases = [(c, None) for c in systematic_cases()]
     st["corpus"] = len(cases)
     cases += [(I.gen_list(rng), None) for _ in range(ngen)]
